@@ -643,6 +643,9 @@ class SimulateOde(DeterministicOde):
 
         dX=np.array(dX)   # convert to numpy array so we can interpolate between timepoints
 
+        if dX.ndim != 2:      # no event occurred at all during the simulation
+            dX=dX.reshape(0, self.num_events)
+
         dims=dX.shape         # Get dimensions of data (timepoints x n_trans)
         n_trans=dims[1]
 
@@ -651,12 +654,11 @@ class SimulateOde(DeterministicOde):
         # (e.g. 2 timepoints =1 jump, 10 timepoints =9)
         X_out=np.zeros((len(targetTime)-1, n_trans))
 
-        # if exact, each point corresponds to a transitions and has weight 1.
+        # the first time point is the initial time, not an event.  If exact, each
+        # remaining point corresponds to one event of one transition, which is what
+        # the 0/1 entries of dX record, so they serve as weights in both cases.
         for i in range(n_trans):
-            if exact:
-                hist, bin_edges=np.histogram(t, bins=targetTime)
-            else:
-                hist, bin_edges=np.histogram(t[1:], bins=targetTime, weights=dX[:,i])
+            hist, bin_edges=np.histogram(t[1:], bins=targetTime, weights=dX[:,i])
             X_out[:,i]=hist            
 
         return X_out
